@@ -13,7 +13,7 @@ import tempfile
 
 import numpy as np
 
-from vlib import gen, tracegen
+from vlib import gen, refmodel, tracegen
 
 
 def corner_forests(n):
@@ -102,6 +102,96 @@ def check_table(part, case, table, newick_str, data, samples, tree_key_expected,
     return ok
 
 
+def objective_check(part, case, table, newick_str, data, samples, clusters, what):
+    """The CCFs a table reports, read as grid indices on the tree its Newick string describes, attain the maximum of the
+    summed per-clone log-likelihoods (independent max-plus recursion over the data of the trace) -- 'CCF ... are those
+    of that clone' checked against the data rather than against a second call of the code under test."""
+    G = data[0].value.shape[-1]
+    D = len(samples)
+    name_to_idx = {str(dp.name): dp.idx for dp in data}
+    by_idx = {dp.idx: dp for dp in data}
+    cl_of_mut = None
+    if clusters is not None:
+        cl_of_mut = {str(r["mutation_id"]): str(int(r["cluster_id"])) for _, r in clusters.iterrows()}
+    members, ccf_of = {}, {}
+    for _, r in table.iterrows():
+        cid = str(r["clone_id"])
+        if cid == "-1":
+            continue
+        key = str(r["mutation_id"]) if cl_of_mut is None else cl_of_mut[str(r["mutation_id"])]
+        if key not in name_to_idx:
+            continue
+        members.setdefault(cid, set()).add(name_to_idx[key])
+        ccf_of.setdefault(cid, {})[str(r["sample_id"])] = float(r["ccf"])
+    root = tracegen.parse_newick(newick_str)
+    labels, parent = [], []
+
+    def rec(nd, par):
+        labels.append(nd[0])
+        parent.append(par)
+        me = len(labels) - 1
+        for ch in nd[1]:
+            rec(ch, me)
+
+    for ch in root[1]:
+        rec(ch, None)
+    if not labels or any(l not in members for l in labels):
+        return
+    f = gen.AForest([sorted(members[l]) for l in labels], parent)
+    own = [sum(by_idx[j].value for j in f.blocks[i]) for i in range(f.K)]
+    got = np.zeros(D)
+    for i, l in enumerate(labels):
+        for d, sname in enumerate(samples):
+            k = ccf_of[l][sname] * (G - 1)
+            if abs(k - round(k)) > 1e-6 or not 0 <= round(k) <= G - 1:
+                return  # off-grid values are reported by C10's oracle
+            got[d] += own[i][d, int(round(k))]
+    best = refmodel.maxprod_value_recursive(f, own, G)
+    part.count("tables_with_ccf_checked_against_the_data")
+    gap = float(np.max(best - got))
+    if gap > 1e-9 * (1 + float(np.max(np.abs(best)))):
+        d = int(np.argmax(best - got))
+        part.violation("ccf values in the %s are not those of the clones of its tree: they do not attain the maximum "
+                       "summed log-likelihood on that tree" % what,
+                       dict(case, sample=samples[d], attained=float(got[d]), maximum=float(best[d]), newick=newick_str,
+                            ccf={l: ccf_of[l] for l in labels}))
+
+
+def relatives(f, rng):
+    """Topologies related to f: the same clones with one subtree moved elsewhere, and with all top-level clones but the
+    first gathered under the first -- families of distinct trees that share sibling sets and subtrees."""
+    out = []
+    if f.K >= 2:
+        for _ in range(2):
+            i = int(rng.integers(0, f.K))
+            sub = set()
+
+            def down(j):
+                sub.add(j)
+                for ch in f.children(j):
+                    down(ch)
+
+            down(i)
+            cands = [None] + [j for j in range(f.K) if j not in sub]
+            new_par = cands[int(rng.integers(0, len(cands)))]
+            par = list(f.parent)
+            par[i] = new_par
+            out.append(gen.AForest(f.blocks, par, f.outliers))
+        tops = f.tops()
+        if len(tops) >= 2:
+            par = list(f.parent)
+            for t in tops[1:]:
+                par[t] = tops[0]
+            out.append(gen.AForest(f.blocks, par, f.outliers))
+        nontop = [j for j in range(f.K) if f.parent[j] is not None]
+        if nontop:
+            par = list(f.parent)
+            for j in f.children(f.parent[nontop[0]]):
+                par[j] = None
+            out.append(gen.AForest(f.blocks, par, f.outliers))
+    return out
+
+
 def table_task(task):
     import pandas as pd
     from vlib.harness import Partial, describe_exception
@@ -138,6 +228,12 @@ def table_task(task):
             corners = corner_forests(n)
             label, f = corners[c % len(corners)] if c % 2 == 0 else ("random", gen.random_forest(rng, n, p_outlier=0.25))
             others = [gen.random_forest(rng, n, p_outlier=0.2) for _ in range(2)]
+            family = c % 4 in (1, 2)
+            if family:
+                rel = relatives(f, rng)
+                if rel:
+                    others = rel
+                    part.count("traces_of_related_topologies")
             case = {"seed": task["seed"], "shard": task["shard"], "case": c, "n": n, "D": D, "clustered": clustered,
                     "tree": f.describe(), "corner": label}
             # the designated tree gets the best score and the highest count, so that all three commands write it
@@ -145,7 +241,7 @@ def table_task(task):
             for ei, e in enumerate(results[0]["trace"]):
                 # later records of the designated tree score strictly higher (as after a concentration update)
                 e["log_p_one"] = -5.0 - 0.01 * (5 - ei) if c % 2 else -5.0
-            extra = tracegen.make_trace(rng, data, samples, 1, 3, others, scores="synthetic", clusters=clusters)
+            extra = tracegen.make_trace(rng, data, samples, 1, 8 if family else 3, others, scores="synthetic", clusters=clusters)
             for e in extra[0]["trace"]:
                 e["log_p_one"] = -50.0 - float(rng.random())
             results[0]["trace"].extend(extra[0]["trace"])
@@ -174,11 +270,22 @@ def table_task(task):
                         expected_key = None
                     else:
                         arc = os.path.join(tmp, "a.tar.gz")
-                        write_topology_report(path, os.path.join(tmp, "rep.tsv"), topologies_archive=arc, top_trees=1)
+                        write_topology_report(path, os.path.join(tmp, "rep.tsv"), topologies_archive=arc, top_trees=50)
                         with tarfile.open(arc, "r:gz") as tf:
                             files = {m.name.split("/")[1]: tf.extractfile(m).read().decode() for m in tf.getmembers()}
                         table = pd.read_csv(io.StringIO(files["t_0_results_table.tsv"]), sep="\t", float_precision="round_trip")
                         newick = files["t_0.nwk"].strip()
+                        # every other archived topology: table consistent with its own tree, values those of its clones
+                        k = 1
+                        while "t_%d.nwk" % k in files:
+                            tk = pd.read_csv(io.StringIO(files["t_%d_results_table.tsv" % k]), sep="\t", float_precision="round_trip")
+                            nk = files["t_%d.nwk" % k].strip()
+                            case["archived_topology"] = k
+                            part.count("archived_topologies_checked")
+                            if check_table(part, case, tk, nk, data, samples, None, clusters, None):
+                                objective_check(part, case, tk, nk, data, samples, clusters, "archived table t_%d" % k)
+                            k += 1
+                        case.pop("archived_topology", None)
                     part.count("tables_checked")
                     part.count("tables_%s" % cmd)
                     ccf_ref = None
@@ -193,6 +300,9 @@ def table_task(task):
                             part.count("tables_with_clone_values_compared")
                     if check_table(part, case, table, newick, data, samples, expected_key, clusters, ccf_ref):
                         part.count("tables_consistent")
+                        if cmd != "consensus":
+                            objective_check(part, case, table, newick, data, samples, clusters,
+                                            "table of the %s command" % cmd)
                     # ccf / prevalence constant per (clone, sample) and feasible on the Newick tree
                     per = {}
                     for _, r in table.iterrows():
@@ -273,17 +383,29 @@ def real_task(task):
                     table, newick = tracegen.read_table(tab), open(nwk).read().strip()
                 else:
                     arc = os.path.join(tmp, "a.tar.gz")
-                    write_topology_report(path, os.path.join(tmp, "rep.tsv"), topologies_archive=arc, top_trees=1)
+                    write_topology_report(path, os.path.join(tmp, "rep.tsv"), topologies_archive=arc, top_trees=50)
                     with tarfile.open(arc, "r:gz") as tf:
                         files = {m.name.split("/")[1]: tf.extractfile(m).read().decode() for m in tf.getmembers()}
                     table = pd.read_csv(io.StringIO(files["t_0_results_table.tsv"]), sep="\t", float_precision="round_trip")
                     newick = files["t_0.nwk"].strip()
+                    k = 1
+                    while "t_%d.nwk" % k in files:
+                        tk = pd.read_csv(io.StringIO(files["t_%d_results_table.tsv" % k]), sep="\t", float_precision="round_trip")
+                        nk = files["t_%d.nwk" % k].strip()
+                        case["archived_topology"] = k
+                        part.count("archived_topologies_checked")
+                        if check_table(part, case, tk, nk, data, samples, None, clusters, None):
+                            objective_check(part, case, tk, nk, data, samples, clusters, "archived table t_%d" % k)
+                        k += 1
+                    case.pop("archived_topology", None)
                 part.count("evaluations")
                 part.count("tables_checked")
                 part.count("tables_from_real_runs")
                 part.see("real|%s|%s|%d" % (cmd, clustered, task["shard"]))
                 if check_table(part, case, table, newick, data, samples, None, clusters, None):
                     part.count("tables_consistent")
+                    if cmd != "consensus":
+                        objective_check(part, case, table, newick, data, samples, clusters, "table of the %s command" % cmd)
             except Exception as e:
                 et, where, msg = describe_exception(e)
                 if where == "outside-repo":
@@ -302,12 +424,18 @@ def run(ctx):
     ctx.rule = ("synthetic traces whose best and most frequent entry is a designated tree - corner trees (single clone, all "
                 "outliers, one outlier, all but one outliers, deep chain, many top-level clones) or random trees with "
                 "outliers - over 1-5 data points, 1-3 samples, clustered (integer cluster ids with 1-3 mutations each) or "
-                "not; TABLE+TREE of map, topology-report archive and consensus checked; distinct = (corner, clustering, "
+                "not, half of them traces of related topologies (one subtree moved, top-level clones gathered / released: shared "
+                "sibling sets in other orders); TABLE+TREE of map, every topology of the topology-report archive and "
+                "consensus checked, reported CCFs checked against the trace's data by an independent max-plus recursion; "
+                "distinct = (corner, clustering, "
                 "#samples, canonical tree)")
-    ctx.assumptions = ["per-clone ccf optimality belongs to C10; here: per-clone constancy, range, prevalence identity"]
+    ctx.assumptions = ["'CCF ... are those of that clone' is read as: the values the table lists attain the maximum summed "
+                       "log-likelihood on the table's own tree (ties accepted), besides per-clone constancy, range and the prevalence identity"]
     shards = 16
     tasks = [{"seed": ctx.seed, "shard": i, "count": 12 if quick else 600} for i in range(shards)]
     ctx.map("checks.c12", "table_task", tasks, timeout=3000)
     ctx.map("checks.c12", "real_task", [{"seed": ctx.seed, "shard": i} for i in range(12 if quick else 48)], timeout=3000)
+    if ctx.counters.get("archived_topologies_checked", 0) < 50 or ctx.counters.get("tables_with_ccf_checked_against_the_data", 0) < 100:
+        ctx.inconc("too few archived topologies / value comparisons")
     if ctx.counters.get("tables_checked", 0) < 200:
         ctx.inconc("too few tables checked")
